@@ -324,11 +324,39 @@ func vf07DecodeOne(r []byte) string {
 func TestVerifC07Decode(t *testing.T) {
 	vf07Setup(t)
 	c := ev.For("C07")
-	c.Rule("decode: generated 32-byte strings (uniform, and 0, 1, 2, p-1, p, p+1, (p+-1)/2, 2^254-1, 2^254, 2^256-1, sqrt(-1), single-bit, top byte 3f/7f/ff/40/80/c0); oracle: decoding never panics, equals the math/big Elligator 2 map, and is invariant under the four settings of the top two bits; non-trivial = every string (distinct by fingerprint)")
+	c.Rule("decode: generated 32-byte strings (uniform, and 0, 1, 2, p-1, p, p+1, (p+-1)/2, 2^254-1, 2^254, 2^256-1, sqrt(-1), single-bit, top byte 3f/7f/ff/40/80/c0); oracle: decoding never panics, equals the math/big Elligator 2 map, and is invariant under the four settings of the top two bits; then a run of 1..4 close neighbours (one or two bits apart, mostly bits 248..255) and the first string again are decoded once each, back to back, every result judged against the reference map (decoding has no memory); non-trivial = every string (distinct by fingerprint)")
 	rapid.Check(t, func(rt *rapid.T) {
 		r := vf07Repr(rt)
 		if msg := vf07DecodeOne(r); msg != "" {
 			rt.Fatalf("%s", msg)
+		}
+		// decoding is a function of the string alone, whatever was decoded before: a run of close neighbours
+		// (one or two bits apart, mostly in the last byte) and then the first string again, each decoded
+		// once, back to back, and judged against the reference map
+		seq := [][]byte{append([]byte(nil), r...)}
+		for k, nn := 0, rapid.IntRange(1, 4).Draw(rt, "neighbours"); k < nn; k++ {
+			nb := append([]byte(nil), seq[len(seq)-1]...)
+			for f, nf := 0, rapid.IntRange(1, 2).Draw(rt, "flips"); f < nf; f++ {
+				bit := rapid.SampledFrom([]int{248, 249, 248, 249, 250, 251, 252, 253, 254, 255, 0, 1, 7, 8, 127, 128, 247}).Draw(rt, "bit")
+				if rapid.IntRange(0, 3).Draw(rt, "anyBit") == 0 {
+					bit = rapid.IntRange(0, 255).Draw(rt, "bitAny")
+				}
+				nb[bit/8] ^= 1 << uint(bit%8)
+			}
+			seq = append(seq, nb)
+		}
+		seq = append(seq, append([]byte(nil), r...))
+		for i, sv := range seq {
+			var in, out [32]byte
+			copy(in[:], sv)
+			copy(out[:], seq[(i+1)%len(seq)]) // (an output array that is not zero)
+			RepresentativeToPublicKey(&out, &in)
+			if want := refx.ToLE(refx.MapToU(sv)); out != want {
+				rt.Fatalf("VIOL[c07-reference-map]: decode #%d of a run of neighbouring strings: %x decodes to %x, the reference Elligator 2 map gives %x (decoded just before: %x)", i, sv, out, want, seq[(i+len(seq)-1)%len(seq)])
+			}
+			if !bytes.Equal(in[:], sv) {
+				rt.Fatalf("VIOL[c07-decode-mutates-input]: decoding changed its input")
+			}
 		}
 		c.Case(ev.Hash("decode", r), true, []string{"decode"}, func() any { return map[string]any{"unit": "decode", "string": ev.Hex(r)} })
 	})
